@@ -3,6 +3,7 @@ CONSTANTS
   NCH = 24
   NB = 7
   Variant = "fixed"
+  NGRP = 4
 INVARIANT LeafSettingsInv
 INVARIANT GroupsPartitionInv
 CHECK_DEADLOCK FALSE
